@@ -3,7 +3,8 @@ package safelog
 // Bounded stand-in for the half of C07 that no contract can state (what the regular expressions match):
 // every line built from up to three addresses (six forms: IPv4, IPv4:port, bracketed IPv6 with port, compressed
 // IPv6, full IPv6, IPv4-embedded IPv6) separated and surrounded by the delimiters of the property (line boundary,
-// space, tab, comma, parentheses, "=", ": ") is scrubbed of every address, written through a LogScrubber.
+// space, tab, comma, parentheses, "=", ": ") is scrubbed of every address, both written through a LogScrubber and handed to Scrub directly without a line
+// terminator (as common/event does with error texts).
 // Bound: <= 3 addresses per line, 6 forms, 7 separators, 3 prefixes, 3 suffixes (about 40 000 lines).
 
 import (
@@ -24,6 +25,17 @@ func TestSFBoundedScrubGrammar(t *testing.T) {
 		var out bytes.Buffer
 		ls := &LogScrubber{Output: &out}
 		ls.Write([]byte(line + "\n"))
+		// the same line handed to Scrub directly, without a line terminator (as common/event does with error texts)
+		direct := string(Scrub([]byte(line)))
+		for _, k := range used {
+			if strings.Contains(direct, marks[k]) {
+				bad++
+				if bad <= 5 {
+					t.Errorf("address %q survives a direct Scrub: %q -> %q", marks[k], line, direct)
+				}
+				return
+			}
+		}
 		for _, k := range used {
 			if strings.Contains(out.String(), marks[k]) {
 				bad++
